@@ -123,30 +123,61 @@ def run(ck, m):
                         op = {'Gt': 'Lt', 'Lt': 'Gt', 'Ge': 'Le', 'Le': 'Ge'}.get(op, op)
                     cmps.append((op, s['l']['l']))
     ops = {op for op, _ in cmps}
-    ok_shape = ops == {'Eq', 'Gt'} or ops == {'Eq', 'Lt'}
     details = []
-    ok = ok_shape
-    if ok_shape:
+    # the three outcome regions, from an if/else chain of comparisons or from a `match candidate.cmp(&own)`
+    reg_eq = reg_y = reg_o = None
+    if ops == {'Eq', 'Gt'} or ops == {'Eq', 'Lt'}:
         for op, loc in cmps:
             for (sbi, tt, ft) in bool_switches(eb, local=loc):
                 treg = {x for x in eb.reachable() if eb.dominates(tt, x) and not eb.dominates(ft, x)}
                 freg = {x for x in eb.reachable() if eb.dominates(ft, x) and not eb.dominates(tt, x)}
                 if op == 'Eq':
-                    calls = [callee(eb.term(x)) for x in treg if eb.term(x)['k'] == 'call' and not is_log(eb.term(x))]
-                    eff = [c for c in calls if c in (sb.id,) or 'replicate_message' in c or 'atomic' in c]
-                    details.append('equal -> %s' % (eff or 'nothing'))
-                    ok = ok and not eff
+                    reg_eq = treg
                 else:
-                    younger, older = (treg, freg) if op == 'Gt' else (freg, treg)
-                    y_calls = [callee(eb.term(x)) for x in younger if eb.term(x)['k'] == 'call']
-                    o_calls = [callee(eb.term(x)) for x in older if eb.term(x)['k'] == 'call']
-                    runs = sb.id in y_calls and sb.id not in o_calls
-                    alive = any(wire.first_word(f) == 'election' and 'alive' in f.text() for _, f in templates_in(m, eb, older)) and \
-                        not any('alive' in f.text() for _, f in templates_in(m, eb, younger))
-                    sec = [names for bi, names in role_store(m, eb, older)]
-                    sec_y = [names for bi, names in role_store(m, eb, younger)]
-                    details.append('candidate younger -> runs election: %s; candidate older -> alive: %s, stores %s' % (runs, alive, sec))
-                    ok = ok and runs and alive and sec == [{'Secoundary'}] and not sec_y
+                    reg_y, reg_o = (treg, freg) if op == 'Gt' else (freg, treg)
+    else:
+        for bi, t in eb.calls():
+            if callee_decl(t) != 'std::cmp::Ord::cmp' or len(t['args']) < 2:
+                continue
+            a = origins(eb, t['args'][0])
+            b_ = origins(eb, t['args'][1])
+            a_c = any(r[0] == 'param' and r[1] == 2 for r in a)
+            b_c = any(r[0] == 'param' and r[1] == 2 for r in b_)
+            a_o = any(any(x[0] == 'f' and x[2] == 'process_id' for x in r[-1]) for r in a)
+            b_o = any(any(x[0] == 'f' and x[2] == 'process_id' for x in r[-1]) for r in b_)
+            if not ((a_c and b_o) or (a_o and b_c)):
+                continue
+            for (sbi, tm_, els, adt) in core.enum_switches(eb, bi):
+                if not adt.endswith('cmp::Ordering'):
+                    continue
+                named = {}
+                for v, tb in eb.term(sbi)['targets']:
+                    named[{'0': 'Equal', '1': 'Greater'}.get(str(v), 'Less')] = tb
+                missing = [n_ for n_ in ('Less', 'Equal', 'Greater') if n_ not in named]
+                if len(missing) == 1:
+                    named[missing[0]] = els
+                if len(named) == 3:
+                    def arm(tb):
+                        return {x for x in eb.reachable() if eb.dominates(tb, x) and not any(eb.dominates(o, x) for o in named.values() if o != tb)}
+                    reg_eq = arm(named['Equal'])
+                    gt, lt = arm(named['Greater']), arm(named['Less'])
+                    reg_y, reg_o = (gt, lt) if a_c else (lt, gt)
+                    ops = {'cmp'}
+    ok = reg_eq is not None and reg_y is not None and reg_o is not None
+    if ok:
+        calls = [callee(eb.term(x)) for x in reg_eq if eb.term(x)['k'] == 'call' and not is_log(eb.term(x))]
+        eff = [c for c in calls if c in (sb.id,) or 'replicate_message' in c or 'atomic' in c]
+        details.append('equal -> %s' % (eff or 'nothing'))
+        ok = ok and not eff
+        y_calls = [callee(eb.term(x)) for x in reg_y if eb.term(x)['k'] == 'call']
+        o_calls = [callee(eb.term(x)) for x in reg_o if eb.term(x)['k'] == 'call']
+        runs = sb.id in y_calls and sb.id not in o_calls
+        alive = any(wire.first_word(f) == 'election' and 'alive' in f.text() for _, f in templates_in(m, eb, reg_o)) and \
+            not any('alive' in f.text() for _, f in templates_in(m, eb, reg_y))
+        sec = [names for bi, names in role_store(m, eb, reg_o)]
+        sec_y = [names for bi, names in role_store(m, eb, reg_y)]
+        details.append('candidate younger -> runs election: %s; candidate older -> alive: %s, stores %s' % (runs, alive, sec))
+        ok = ok and runs and alive and sec == [{'Secoundary'}] and not sec_y
     ck.ob('C07.a', short(eb.id), 'decision-table', ok,
           'election_eval: ' + '; '.join(details) if ok else 'election_eval decision table differs: comparisons %s; %s' % (sorted(ops), '; '.join(details)),
           '%s:%s' % (eb.file, eb.line))
@@ -161,16 +192,18 @@ def run(ck, m):
     sch = repl.schemas(m)
     if sup:
         sp = sup[0]
-        tm = [(bi, f) for bi, f in templates_in(m, sp) if wire.first_word(f) == 'set-primary']
+        unit = [sp] + P.private_helpers(sp)      # an arm's body may live in a helper extracted from the loop
+        tm = [(bi, f) for ub in unit for bi, f in templates_in(m, ub) if wire.first_word(f) == 'set-primary']
         adds = []
-        for bi, t in sp.calls():
-            if callee(t).endswith('add_cluster_member'):
-                for r in origins(sp, t['args'][1]):
-                    if r[0] == 'agg':
-                        rv = sp.blocks[r[1]]['s'][r[2]]['r']
-                        if 'role' in rv.get('fields', []):
-                            for r2 in origins(sp, rv['ops'][rv['fields'].index('role')]):
-                                adds.append(role_of_root(m, sp, r2))
+        for ub in unit:
+            for bi, t in ub.calls():
+                if callee(t).endswith('add_cluster_member'):
+                    for r in origins(ub, t['args'][1]):
+                        if r[0] == 'agg':
+                            rv = ub.blocks[r[1]]['s'][r[2]]['r']
+                            if 'role' in rv.get('fields', []):
+                                for r2 in origins(ub, rv['ops'][rv['fields'].index('role')]):
+                                    adds.append(role_of_root(m, ub, r2))
         parses = bool(tm) and sch.get('set-primary', ([], [], None))[1] == ['SetPrimary']
         okb2 = parses and {'Primary'} in adds
         ck.ob('C07.b', short(sp.id), 'announce-set-primary', okb2,
